@@ -616,3 +616,186 @@ func R15ErrDiscipline(c *Ctx) {
 	_ = constant.MakeBool
 	_ = packages.NeedName
 }
+
+// R15NoCarry — per-element records of the listener part depend on their element only.
+func R15NoCarry(c *Ctx) {
+	const rule = "R15-no-carry"
+	c.R.Rule(rule, "inside the loops of PatchConfig that pack one record per host / header / URI, no packed argument depends on a value carried over from an earlier iteration (a loop-header phi other than the range counter, or a variable declared outside the loop and assigned inside it): what is packed for one element is a function of that element and of loop-invariant listener settings", 4)
+	fn := c.P.Func(PkgBuilder, "Builder.PatchConfig")
+	if fn == nil {
+		c.R.Anchor(rule, "builder.(*Builder).PatchConfig")
+		return
+	}
+	fname := FuncShort(fn)
+	loops := naturalLoops(fn)
+	for _, b := range fn.Blocks {
+		// innermost loop containing b
+		var in *natLoop
+		for _, l := range loops {
+			if l.body[b] && (in == nil || len(l.body) < len(in.body)) {
+				in = l
+			}
+		}
+		if in == nil {
+			continue
+		}
+		for _, ins := range b.Instrs {
+			call, ok := ins.(*ssa.Call)
+			if !ok {
+				continue
+			}
+			name := CalleeName(call)
+			if !strings.HasPrefix(name, "(*Havoc/pkg/common/packer.Packer).Add") {
+				continue
+			}
+			args := CallArgs(call)
+			if len(args) == 0 {
+				continue
+			}
+			carried := carriedInto(args[0], in)
+			construct := strings.TrimPrefix(name, "(*Havoc/pkg/common/packer.Packer).") + "(…) inside a per-element loop"
+			if carried == nil {
+				c.R.Ok(rule, fname, construct, c.pos(call.Pos()), "depends on the current element and loop-invariant values only", true)
+			} else {
+				c.R.Bad(rule, fname, construct, c.pos(call.Pos()), "the packed value depends on "+DescribeValue(carried)+", which is assigned in an earlier iteration of the loop: a setting of one element (e.g. the port of a host:port entry) leaks into the records after it")
+			}
+		}
+	}
+}
+
+type natLoop struct {
+	header *ssa.BasicBlock
+	body   map[*ssa.BasicBlock]bool
+}
+
+// naturalLoops: for each back edge t→h (h dominates t) the blocks that reach t without passing h.
+func naturalLoops(fn *ssa.Function) []*natLoop {
+	byHeader := map[*ssa.BasicBlock]*natLoop{}
+	var out []*natLoop
+	for _, t := range fn.Blocks {
+		for _, h := range t.Succs {
+			if !h.Dominates(t) {
+				continue
+			}
+			l := byHeader[h]
+			if l == nil {
+				l = &natLoop{header: h, body: map[*ssa.BasicBlock]bool{h: true}}
+				byHeader[h] = l
+				out = append(out, l)
+			}
+			stack := []*ssa.BasicBlock{t}
+			for len(stack) > 0 {
+				x := stack[len(stack)-1]
+				stack = stack[:len(stack)-1]
+				if l.body[x] {
+					continue
+				}
+				l.body[x] = true
+				stack = append(stack, x.Preds...)
+			}
+		}
+	}
+	return out
+}
+
+// carriedInto returns a value on which v depends and which flows around the loop's back edge.
+func carriedInto(v ssa.Value, l *natLoop) ssa.Value {
+	seen := map[ssa.Value]bool{}
+	var rec func(v ssa.Value) ssa.Value
+	rec = func(v ssa.Value) ssa.Value {
+		if v == nil || seen[v] {
+			return nil
+		}
+		seen[v] = true
+		ins, isInstr := v.(ssa.Instruction)
+		if isInstr && ins.Block() != nil && !l.body[ins.Block()] {
+			// defined outside the loop: invariant, unless it is a cell written inside the loop
+			if al, ok := v.(*ssa.Alloc); ok {
+				for _, r := range *al.Referrers() {
+					if st, ok := r.(*ssa.Store); ok && st.Addr == ssa.Value(al) && l.body[st.Block()] {
+						return v
+					}
+				}
+			}
+			return nil
+		}
+		switch x := v.(type) {
+		case *ssa.Phi:
+			if x.Block() == l.header {
+				for i, e := range x.Edges {
+					if !l.body[x.Block().Preds[i]] {
+						continue
+					}
+					// the range counter: phi + 1
+					if bo, ok := e.(*ssa.BinOp); ok && bo.Op == token.ADD && bo.X == ssa.Value(x) {
+						if k, ok := ConstInt(bo.Y); ok && k == 1 {
+							continue
+						}
+					}
+					if e == ssa.Value(x) {
+						continue
+					}
+					return x
+				}
+				return nil
+			}
+			for _, e := range x.Edges {
+				if r := rec(e); r != nil {
+					return r
+				}
+			}
+		case *ssa.UnOp:
+			return rec(x.X)
+		case *ssa.BinOp:
+			if r := rec(x.X); r != nil {
+				return r
+			}
+			return rec(x.Y)
+		case *ssa.Convert:
+			return rec(x.X)
+		case *ssa.ChangeType:
+			return rec(x.X)
+		case *ssa.MakeInterface:
+			return rec(x.X)
+		case *ssa.Extract:
+			return rec(x.Tuple)
+		case *ssa.Index:
+			if r := rec(x.X); r != nil {
+				return r
+			}
+			return rec(x.Index)
+		case *ssa.IndexAddr:
+			if r := rec(x.X); r != nil {
+				return r
+			}
+			return rec(x.Index)
+		case *ssa.Slice:
+			return rec(x.X)
+		case *ssa.Lookup:
+			return rec(x.X)
+		case *ssa.FieldAddr:
+			return rec(x.X)
+		case *ssa.Field:
+			return rec(x.X)
+		case *ssa.Alloc:
+			for _, r := range *x.Referrers() {
+				if st, ok := r.(*ssa.Store); ok && st.Addr == ssa.Value(x) {
+					if r := rec(st.Val); r != nil {
+						return r
+					}
+				}
+			}
+		case *ssa.Call:
+			for _, a := range x.Call.Args {
+				if r := rec(a); r != nil {
+					return r
+				}
+			}
+			if x.Call.IsInvoke() {
+				return rec(x.Call.Value)
+			}
+		}
+		return nil
+	}
+	return rec(v)
+}
